@@ -72,7 +72,8 @@ def gen_case(rng, tier, k):
         ops.append(["skipmin", rng.randrange(64)])
     ops.append(["skiprem"])
     return {"bnet": bnet, "ops": ops, "order_seed": rng.randrange(1 << 30), "fallback": rng.random() < 0.3,
-            "candidate_limit": rng.choice([100000, 100000, 100000, 1, 2]), "fallback_direct": rng.random() < 0.3}
+            "candidate_limit": rng.choice([100000, 100000, 100000, 1, 2]), "fallback_direct": rng.random() < 0.3,
+            "max_motifs": rng.choice([100000] * 8 + [3, 4, 5])}
 
 
 _avoid = []
@@ -123,19 +124,26 @@ def run_case(case):
     _patch_isect()
     sd = make_sd(case)
     sd.config["attractor_candidates_limit"] = case.get("candidate_limit", 100000)
+    sd.config["max_motifs_per_node"] = case.get("max_motifs", 100000)
     ni = common.NetInfo(sd.network)
+    min_checks = []
     for op in case["ops"]:
         try:
             if op[0] == "seedsfb":
                 sd.node_attractor_seeds(op[1] % len(sd), compute=True, symbolic_fallback=True)
             else:
+                min_sp = plain.min_space_of(sd, ni, op)
                 plain.apply_op(sd, ni, op)
+                if min_sp is not None and plain._min_record:
+                    min_checks.append((ni.sp(min_sp), sorted(ni.sp(min_sp | x) for x in plain._min_record[0]), op[0]))
         except RuntimeError:
             pass
     order = list(sd.node_ids())
     if case.get("order_seed") is not None:
         random.Random(case["order_seed"]).shuffle(order)
     orc = Oracle(ni)
+    for j, (spx, _, _) in enumerate(min_checks):
+        orc.ask(("minset", j), f"MIN {spx}")
     seeds, errors = {}, 0
     excl_ties = []
     fb_ties = []
@@ -189,6 +197,10 @@ def run_case(case):
                 if len(nodes) > 1:
                     fails.append({"kind": "duplicate-attractor", "detail": f"no motif-avoidant attractor in the network, yet attractor {a} is reported by nodes {nodes}"})
     diffs = []
+    for j, (spx, got, opname) in enumerate(min_checks):
+        if orc.get(("minset", j)).split() != got:
+            diffs.append({"stream": "ORACLE answer of the minimal-trap-space solver vs Lean minTrapsIn", "at": opname,
+                          "impl": got[:8], "model": orc.get(("minset", j)).split()[:8]})
     def region(spaces):
         # the states covered by a list of spaces (the lists themselves may differ harmlessly)
         out = set()
